@@ -109,6 +109,9 @@ class Modules(productmd.common.MetadataBase):
         version = uid_dict["version"]
         context = uid_dict["context"]
 
+        if not isinstance(modulemd_path, six.string_types):
+            raise TypeError("Path must be a string: %r" % (modulemd_path, ))
+
         if modulemd_path.startswith("/"):
             raise ValueError("Relative path expected: %s" % modulemd_path)
 
